@@ -372,3 +372,41 @@ reg("C11", [
     "loop bound 10 per loop head; paths that reach it (legal pointer cycles up to the 255-octet budget) are outside the claim",
     "known finding (not repaired): unnamed RCODE values collapse to RCODE::Reserved and are written back as 1, see known_findings.txt",
 ])
+
+_PIPE_FUNCS = ["sync_discovery::service_discovery::add_response_to_resources", "simple_mdns::build_reply", "ResourceRecordManager::*",
+               "Packet::{build_bytes_vec_compressed,parse}", "Name::{is_subdomain_of,eq}", "ResourceRecord::into_owned",
+               "instance_information::{escaped_instance_name,unescaped_instance_name}"]
+reg("C14", [
+    Obl("C14.peek_any_length", "K", "c01::peek_any_length", "8 peek functions x every datagram length 0..=16, all bytes symbolic (the call shapes "
+        "has_flags(&buf[..count]) / id / answers of the responder, listener and resolver loops)", ["header_buffer::*"]),
+    M("C14", "name_parse", "name_parse", "Name::parse terminates and does not panic: every buffer 0..6 (8) bytes, progress check on loop-bound hits",
+      ["<Name as WireFormat>::parse"], params={'mode': 'nopanic'}),
+    M("C14", "name_step", "name_step", "inductive Name::parse step: any length, any iteration count", ["<Name as WireFormat>::parse"]),
+    M("C14", "packet", "packet_bytes", "Packet::parse on fully symbolic datagrams of length 0,4,8,12..17 (quick)", ["Packet::parse"],
+      params={'K_quick': 5, 'K_thorough': 9}),
+    M("C14", "ingest", "mdns_pipeline", "4 response scenarios: answers/additional records over a pool of names with arbitrary label bytes, "
+      "service / own-instance names from the same pool: no panic, and exactly the admissible records are stored as cached", _PIPE_FUNCS,
+      params={'part': 'ingest'}),
+    M("C14", "reply_wire", "mdns_pipeline", "9 query scenarios against stores of 1-3 records (hostile label bytes): no panic; every Some(reply) "
+      "serialises (compressed) to bytes Packet::parse accepts and that parse back to the reply", _PIPE_FUNCS, params={'part': 'reply_wire'}),
+    M("C14", "key", "mdns_store", "get_key on names with arbitrary (non-UTF-8) label bytes: no panic (49 name pairs)", _MDNS_FUNCS, params={'part': 'key'}),
+], [
+    "socket set-up, recv_from/send_to errors, thread scheduling, lock poisoning as a scheduling phenomenon and the tokio variants' executor are "
+    "outside this technique: the obligations cover the sequential handling functions that the receive loops call with the lock held",
+    "the on_discovery channel is None in the ingest obligation (the Some branch only adds InstanceInformation::from_records, covered by C15)",
+])
+reg("C15", [
+    M("C15", "escape", "mdns_pipeline", "unescape(escape(s)) == s for all strings of 0..3 (4) chars over the full Unicode scalar range", _PIPE_FUNCS,
+      params={'part': 'escape'}),
+    M("C15", "filter", "mdns_pipeline", "ingest filter: own instance, the service name itself and non-subdomains are never stored; admissible "
+      "records always are (4 scenarios over the symbolic name pool)", _PIPE_FUNCS, params={'part': 'ingest'}),
+    M("C15", "attributes", "txt_text", "attribute maps (1-2 entries; absent / empty / non-empty values) survive TXT::try_from(map) -> attributes()",
+      ["<TXT as TryFrom<HashMap<String, Option<String>>>>::try_from", "TXT::attributes"], params={'part_only': 'attr'}),
+    M("C15", "wire", "packet_rt", "records of the kinds an instance announces (A, SRV, TXT, PTR) cross the wire in a compressed packet unchanged "
+      "(scenarios mx_srv, an_ns_ptr, opt_and_ar)", _PKT_FUNCS, params={'only': ['mx_srv', 'an_ns_ptr', 'opt_and_ar']}),
+], [
+    "the end-to-end chain InstanceInformation -> into_records -> packet -> wire -> ingest -> from_records is decided piecewise (escape, "
+    "attribute map <-> TXT, records over the compressed wire, ingest filter); HashSet<IpAddr>/port-set reconstruction in from_records is "
+    "not executed symbolically (std::net::SocketAddr / HashSet<IpAddr> construction is outside the model surface)",
+    "socket transport between the two sides is replaced by bytes out = bytes in",
+])
